@@ -1582,8 +1582,892 @@ Proof.
   rewrite Forall_forall in Hd. destruct (Hd _ Hin) as [Hv Hr]. apply valid_pt_pos in Hv. cbn in *. lia.
 Qed.
 
+Definition wof (g : option point) : list N := match g with Some (PW l) => [l] | _ => [] end.
+Lemma wof_in g l : In l (wof g) <-> g = Some (PW l).
+Proof.
+  destruct g as [[l'|j]|]; cbn; split; intros H; try contradiction; try discriminate.
+  - destruct H as [->|[]]. reflexivity.
+  - injection H as ->. left. reflexivity.
+Qed.
+
+Lemma NoDup_app_intro {A} (a b : list A) :
+  NoDup a -> NoDup b -> (forall x, In x a -> In x b -> False) -> NoDup (a ++ b).
+Proof.
+  induction a as [|x a IH]; cbn; intros Ha Hb Hd; [exact Hb|]. inversion Ha as [|? ? Hx Ha']; subst. constructor.
+  - intros Hin. apply in_app_or in Hin as [Hin|Hin]; [contradiction|]. eapply Hd; [left; reflexivity|exact Hin].
+  - apply IH; [exact Ha'|exact Hb|]. intros y Hy. apply Hd. right. exact Hy.
+Qed.
+
+(* the generic update of the ghost state along one (effective) step of thread t *)
+Lemma LIN_core c pst gpt ghs s' t th' hist' gpt' new :
+  LIN c pst gpt ghs -> (t < length (thr c))%nat -> sh_inv s' -> hs_rel (sh c) s' ->
+  let n1 := now c + 1 in
+  let c' := mkCfg s' (upd_list (thr c) t th') n1 hist' in
+  let pst' := upd_pst pst n1 s' in
+  let newW := wpts (map snd new) ++ wof (gpt' t) in
+  khist c' = map fst new ++ khist c ->
+  Forall (done_ok pst' n1) new ->
+  NoDup newW ->
+  (forall l, In l newW -> l = n1 \/ In l (wof (gpt t))) ->
+  (forall l, In l (wof (gpt t)) -> In l newW) ->
+  (absv s' = absv (sh c) \/ In n1 newW) ->
+  pend_thr pst' n1 (gpt' t) th' ->
+  (forall t', t' <> t -> gpt' t' = gpt t') ->
+  LIN c' pst' gpt' (new ++ ghs).
+Proof.
+  intros HL Ht Hinv' Hrel n1 c' pst' newW Hhist Hnew HW1 HW2 HW3 HW4 Hpt Hoth.
+  pose proof HL as (Htr & Hmap & Hdone & Hnd & Huniq & Hcov & Hpend).
+  assert (Hag : forall j, j <= now c -> pst' j = pst j) by (intros j Hj; apply upd_pst_old; lia).
+  assert (Hagt : forall j, j <= now c -> trv pst' j = trv pst j) by (intros j Hj; unfold trv; rewrite Hag by exact Hj; reflexivity).
+  assert (HnewW_ghs : forall l, In l newW -> ~ In l (wpts (map snd ghs))).
+  { intros l Hl Hin. destruct (HW2 l Hl) as [->|Ho].
+    - pose proof (LIN_ghs_pos _ _ _ _ _ HL Hin). lia.
+    - apply wof_in in Ho. destruct (Huniq _ _ Ho) as [Hn _]. contradiction. }
+  assert (HnewW_pos : forall l t0, t0 <> t -> gpt t0 = Some (PW l) -> ~ In l newW).
+  { intros l t0 Hne Hg Hl. destruct (HW2 l Hl) as [->|Ho].
+    - pose proof (LIN_gpt_pos _ _ _ _ _ _ HL Hg) as Hp. cbn in Hp. lia.
+    - apply wof_in in Ho. destruct (Huniq _ _ Ho) as [_ Hu]. apply Hne. apply Hu. exact Hg. }
+  split; [eapply trace_ext; eassumption|]. split; [rewrite map_app, Hmap; symmetry; exact Hhist|]. split; [|split; [|split; [|split]]].
+  - apply Forall_app. split; [exact Hnew|]. eapply Forall_impl; [|exact Hdone]. intros hp [Hv Hr]. split; [|cbn; lia].
+    eapply valid_pt_ext; [exact Hagt| |exact Hv]. exact Hr.
+  - rewrite map_app, wpts_app. apply NoDup_app_intro; [eapply NoDup_app_l; exact HW1|exact Hnd|].
+    intros l Hl Hin. apply (HnewW_ghs l); [apply in_or_app; left; exact Hl|exact Hin].
+  - intros t0 l Hg. rewrite map_app, wpts_app. destruct (Nat.eq_dec t0 t) as [->|Hne].
+    + assert (Hl : In l newW) by (apply in_or_app; right; apply wof_in; exact Hg). split.
+      * intros Hin. apply in_app_or in Hin as [Hin|Hin]; [|exact (HnewW_ghs l Hl Hin)].
+        eapply NoDup_app_disj; [exact HW1|exact Hin|apply wof_in; exact Hg].
+      * intros t' Hg'. destruct (Nat.eq_dec t' t) as [E|Hne']; [exact E|]. rewrite Hoth in Hg' by exact Hne'.
+        exfalso. exact (HnewW_pos l t' Hne' Hg' Hl).
+    + rewrite Hoth in Hg by exact Hne. destruct (Huniq _ _ Hg) as [Hn Hu]. split.
+      * intros Hin. apply in_app_or in Hin as [Hin|Hin]; [|contradiction].
+        apply (HnewW_pos l t0 Hne Hg). apply in_or_app. left. exact Hin.
+      * intros t' Hg'. destruct (Nat.eq_dec t' t) as [->|Hne'].
+        -- exfalso. apply (HnewW_pos l t0 Hne Hg). apply in_or_app. right. apply wof_in. exact Hg'.
+        -- rewrite Hoth in Hg' by exact Hne'. apply Hu. exact Hg'.
+  - intros l Hl Hch. rewrite map_app, wpts_app.
+    assert (Hin_new : forall l0, In l0 newW -> In l0 (wpts (map snd new) ++ wpts (map snd ghs)) \/ exists t0, gpt' t0 = Some (PW l0)).
+    { intros l0 H0. apply in_app_or in H0 as [H0|H0]; [left; apply in_or_app; left; exact H0|right; exists t; apply wof_in; exact H0]. }
+    destruct (N.eq_dec l n1) as [->|Hne].
+    + destruct HW4 as [Hsame|Hin]; [|apply Hin_new; exact Hin]. exfalso. apply Hch. unfold trv.
+      replace (n1 - 1) with (now c) by (unfold n1; lia). unfold pst'. rewrite upd_pst_new, upd_pst_old by (unfold n1; lia).
+      destruct Htr as (-> & _). symmetry. exact Hsame.
+    + cbn [now c'] in Hl. assert (Hl' : 0 < l <= now c) by (unfold n1 in *; lia).
+      rewrite !Hagt in Hch by lia. destruct (Hcov l Hl' Hch) as [Hin|(t0 & Hg)].
+      * left. apply in_or_app. right. exact Hin.
+      * destruct (Nat.eq_dec t0 t) as [->|Hne0]; [apply Hin_new; apply HW3; apply wof_in; exact Hg|].
+        right. exists t0. rewrite Hoth by exact Hne0. exact Hg.
+  - intros t0. unfold c'. rewrite get_thr_upd by exact Ht. cbn [now]. destruct (Nat.eqb_spec t0 t) as [->|Hne]; [exact Hpt|].
+    rewrite Hoth by exact Hne. eapply pend_thr_ext; [exact Hag| |apply Hpend]. unfold n1. lia.
+Qed.
+
+Definition upd_g (g : nat -> option point) (t : nat) (x : option point) : nat -> option point :=
+  fun t' => if Nat.eqb t' t then x else g t'.
+Lemma upd_g_same g t x : upd_g g t x t = x.
+Proof. unfold upd_g. rewrite Nat.eqb_refl. reflexivity. Qed.
+Lemma upd_g_other g t x t' : t' <> t -> upd_g g t x t' = g t'.
+Proof. intros H. unfold upd_g. destruct (Nat.eqb_spec t' t); [contradiction|reflexivity]. Qed.
+
+Lemma LIN_inv_le c pst gpt ghs t o : LIN c pst gpt ghs -> cur (get_thr c t) = Some o -> inv_at (get_thr c t) <= now c.
+Proof. intros (_ & _ & _ & _ & _ & _ & Hp) Hc. specialize (Hp t). unfold pend_thr in Hp. rewrite Hc in Hp. tauto. Qed.
+
+Lemma LIN_gpt_none c pst gpt ghs t :
+  LIN c pst gpt ghs -> (forall h r, at_ (get_thr c t) <> PutUnlock h r None) -> gpt t = None.
+Proof.
+  intros HL Hpc. destruct (gpt t) as [pt|] eqn:Hg; [|reflexivity]. exfalso.
+  destruct HL as (_ & _ & _ & _ & _ & _ & Hp).
+  destruct (pend_thr_gpt _ _ _ _ _ (Hp t) Hg) as (o & h & r & _ & _ & Ha & _). exact (Hpc _ _ Ha).
+Qed.
+
+(* the reader part of a pc's obligations *)
+Definition pc_pend (pst : N -> shared) (n iv : N) (p : pc) : Prop :=
+  match p with
+  | GWalk _ q | PutFast _ _ q => exists j, iv <= j <= n /\ Pk (pst j) q
+  | PutUnlock _ _ None => False
+  | _ => True
+  end.
+
+Lemma pend_thr_plain pst n th o :
+  cur th = Some o -> inv_at th <= n -> (op_key o = k -> pc_pend pst n (inv_at th) (at_ th)) -> pend_thr pst n None th.
+Proof.
+  intros Hc Hi Hp. unfold pend_thr. rewrite Hc. split; [exact Hi|].
+  destruct (N.eqb_spec (op_key o) k) as [E|E]; [|reflexivity]. specialize (Hp E). unfold pc_pend in Hp.
+  destruct (at_ th); auto. destruct retry; [reflexivity|contradiction].
+Qed.
+
+Lemma khist_same s ths n h c : h = hist c -> khist (mkCfg s ths n h) = khist c.
+Proof. intros ->. reflexivity. Qed.
+
+(* (S1) a step that is not a linearization point *)
+Lemma LIN_goto_silent c pst gpt ghs t o s' p :
+  LIN c pst gpt ghs -> (t < length (thr c))%nat -> cur (get_thr c t) = Some o ->
+  (forall h r, at_ (get_thr c t) <> PutUnlock h r None) ->
+  sh_inv s' -> hs_rel (sh c) s' -> absv s' = absv (sh c) ->
+  (op_key o = k -> pc_pend (upd_pst pst (now c + 1) s') (now c + 1) (inv_at (get_thr c t)) p) ->
+  LIN (goto (with_sh (bump c) s') t p) (upd_pst pst (now c + 1) s') gpt ghs.
+Proof.
+  intros HL Ht Hcur Hpc Hinv' Hrel Habs Hp. rewrite goto_shape.
+  pose proof (LIN_gpt_none _ _ _ _ _ HL Hpc) as Hg. pose proof (LIN_inv_le _ _ _ _ _ _ HL Hcur) as Hi.
+  apply (LIN_core c pst gpt ghs s' t (moved c t p) (hist c) gpt [] HL Ht Hinv' Hrel); cbn [map wpts app]; rewrite ?Hg; cbn [wof].
+  - reflexivity.
+  - constructor.
+  - constructor.
+  - intros l [].
+  - intros l [].
+  - left. exact Habs.
+  - apply (pend_thr_plain _ _ (moved c t p) o); [exact Hcur|cbn; lia|exact Hp].
+  - reflexivity.
+Qed.
+
+(* (S2) invoking the next operation *)
+Lemma LIN_invoke c pst gpt ghs t o rest :
+  binv c -> LIN c pst gpt ghs -> (t < length (thr c))%nat -> at_ (get_thr c t) = PDone ->
+  LIN (mkCfg (sh c) (upd_list (thr c) t (mkT rest (Some o) (PStart o) (now c + 1))) (now c + 1) (hist c))
+      (upd_pst pst (now c + 1) (sh c)) gpt ghs.
+Proof.
+  intros Hb HL Ht Hpc. assert (Hg : gpt t = None) by (apply (LIN_gpt_none _ _ _ _ _ HL); rewrite Hpc; discriminate).
+  destruct (hs_rel_same (sh c) (sh c) (proj1 Hb) eq_refl eq_refl) as [Hrel _].
+  apply (LIN_core c pst gpt ghs (sh c) t _ (hist c) gpt [] HL Ht (proj1 Hb) Hrel); cbn [map wpts app]; rewrite ?Hg; cbn [wof].
+  - reflexivity.
+  - constructor.
+  - constructor.
+  - intros l [].
+  - intros l [].
+  - left. reflexivity.
+  - eapply pend_thr_plain; [reflexivity|cbn; lia|intros _; exact I].
+  - reflexivity.
+Qed.
+
+Definition new_pt_ok (pst' : N -> shared) (c : cfg) (s' : shared) (iv : N) (o : opn) (r : res) : Prop :=
+  (op_key o = k -> exists pt, valid_pt (trv pst') (C_ iv (now c + 1) (kop_of o r)) pt /\
+                              (pt = PW (now c + 1) \/ exists j, pt = PR j /\ absv s' = absv (sh c))) /\
+  (op_key o <> k -> absv s' = absv (sh c)).
+
+(* (S4) reaching the unlock step with the operation's result decided *)
+Lemma LIN_goto_unlock c pst gpt ghs t o s' h r :
+  LIN c pst gpt ghs -> (t < length (thr c))%nat -> cur (get_thr c t) = Some o ->
+  (forall h r, at_ (get_thr c t) <> PutUnlock h r None) ->
+  sh_inv s' -> hs_rel (sh c) s' ->
+  new_pt_ok (upd_pst pst (now c + 1) s') c s' (inv_at (get_thr c t)) o r ->
+  exists gpt', LIN (goto (with_sh (bump c) s') t (PutUnlock h r None)) (upd_pst pst (now c + 1) s') gpt' ghs.
+Proof.
+  intros HL Ht Hcur Hpc Hinv' Hrel [Hk Hnk]. rewrite goto_shape.
+  pose proof (LIN_gpt_none _ _ _ _ _ HL Hpc) as Hg. pose proof (LIN_inv_le _ _ _ _ _ _ HL Hcur) as Hi.
+  destruct (N.eq_dec (op_key o) k) as [E|E].
+  - destruct (Hk E) as (pt & Hv & Hpt). exists (upd_g gpt t (Some pt)).
+    apply (LIN_core c pst gpt ghs s' t _ (hist c) _ [] HL Ht Hinv' Hrel); cbn [map wpts app]; rewrite ?Hg, ?upd_g_same; cbn [wof].
+    + reflexivity.
+    + constructor.
+    + destruct pt; cbn; repeat constructor. intros [].
+    + intros l Hl. left. destruct Hpt as [->|(j & -> & _)]; cbn in Hl; [destruct Hl as [<-|[]]; reflexivity|contradiction].
+    + intros l [].
+    + destruct Hpt as [->|(j & -> & Ha)]; [right; left; reflexivity|left; exact Ha].
+    + unfold pend_thr, moved. cbn [cur at_ inv_at]. rewrite Hcur. split; [lia|].
+      rewrite E, N.eqb_refl. exists pt. auto.
+    + intros t' Hne. apply upd_g_other. exact Hne.
+  - exists gpt.
+    apply (LIN_core c pst gpt ghs s' t _ (hist c) _ [] HL Ht Hinv' Hrel); cbn [map wpts app]; rewrite ?Hg; cbn [wof].
+    + reflexivity.
+    + constructor.
+    + constructor.
+    + intros l [].
+    + intros l [].
+    + left. apply Hnk. exact E.
+    + unfold pend_thr, moved. cbn [cur at_ inv_at]. rewrite Hcur. split; [lia|].
+      destruct (N.eqb_spec (op_key o) k); [contradiction|reflexivity].
+    + reflexivity.
+Qed.
+
+Lemma khist_cons c s ths n h :
+  khist (mkCfg s ths n (h :: hist c)) = if (op_key (h_op h) =? k) then h :: khist c else khist c.
+Proof. unfold khist. cbn [hist filter]. reflexivity. Qed.
+
+(* (S5) an operation that responds at its linearization step *)
+Lemma LIN_finish_direct c pst gpt ghs t o s' r :
+  LIN c pst gpt ghs -> (t < length (thr c))%nat -> cur (get_thr c t) = Some o ->
+  (forall h r, at_ (get_thr c t) <> PutUnlock h r None) ->
+  sh_inv s' -> hs_rel (sh c) s' ->
+  new_pt_ok (upd_pst pst (now c + 1) s') c s' (inv_at (get_thr c t)) o r ->
+  exists ghs', LIN (finish (with_sh (bump c) s') t r) (upd_pst pst (now c + 1) s') gpt ghs'.
+Proof.
+  intros HL Ht Hcur Hpc Hinv' Hrel [Hk Hnk]. rewrite (finish_shape _ _ _ _ _ Hcur).
+  pose proof (LIN_gpt_none _ _ _ _ _ HL Hpc) as Hg. pose proof (LIN_inv_le _ _ _ _ _ _ HL Hcur) as Hi.
+  destruct (N.eq_dec (op_key o) k) as [E|E].
+  - destruct (Hk E) as (pt & Hv & Hpt).
+    exists ([(mkH t o r (inv_at (get_thr c t)) (now c + 1), pt)] ++ ghs).
+    apply (LIN_core c pst gpt ghs s' t _ _ gpt _ HL Ht Hinv' Hrel); cbn [map snd fst app]; rewrite ?Hg, ?app_nil_r; cbn [wof].
+    + rewrite khist_cons. cbn [h_op]. rewrite E, N.eqb_refl. reflexivity.
+    + constructor; [|constructor]. split; [exact Hv|cbn; lia].
+    + rewrite ?app_nil_r. destruct pt; cbn; repeat constructor. intros [].
+    + rewrite ?app_nil_r. intros l Hl. left. destruct Hpt as [->|(j & -> & _)]; cbn in Hl; [destruct Hl as [<-|[]]; reflexivity|contradiction].
+    + intros l [].
+    + rewrite ?app_nil_r. destruct Hpt as [->|(j & -> & Ha)]; [right; left; reflexivity|left; exact Ha].
+    + reflexivity.
+    + reflexivity.
+  - exists ([] ++ ghs).
+    apply (LIN_core c pst gpt ghs s' t _ _ gpt _ HL Ht Hinv' Hrel); cbn [map wpts app]; rewrite ?Hg; cbn [wof].
+    + rewrite khist_cons. cbn [h_op]. destruct (N.eqb_spec (op_key o) k); [contradiction|reflexivity].
+    + constructor.
+    + constructor.
+    + intros l [].
+    + intros l [].
+    + left. apply Hnk. exact E.
+    + reflexivity.
+    + reflexivity.
+Qed.
+
+(* (S6) the response after the unlock *)
+Lemma LIN_finish_unlock c pst gpt ghs t o h r :
+  binv c -> LIN c pst gpt ghs -> (t < length (thr c))%nat -> cur (get_thr c t) = Some o ->
+  at_ (get_thr c t) = PutUnlock h r None ->
+  sh_inv (set_lock (sh c) h None) ->
+  exists gpt' ghs', LIN (finish (with_sh (bump c) (set_lock (sh c) h None)) t r)
+                        (upd_pst pst (now c + 1) (set_lock (sh c) h None)) gpt' ghs'.
+Proof.
+  intros Hb HL Ht Hcur Hpc Hinv'. rewrite (finish_shape _ _ _ _ _ Hcur).
+  destruct (hs_rel_same (sh c) (set_lock (sh c) h None) (proj1 Hb) eq_refl eq_refl) as [Hrel Habs].
+  pose proof HL as (_ & _ & _ & _ & _ & _ & Hp). specialize (Hp t). unfold pend_thr in Hp. rewrite Hcur, Hpc in Hp.
+  destruct Hp as [Hi Hp]. destruct (N.eqb_spec (op_key o) k) as [E|E].
+  - destruct Hp as (pt & Hg & Hv).
+    exists (upd_g gpt t None), ([(mkH t o r (inv_at (get_thr c t)) (now c + 1), pt)] ++ ghs).
+    apply (LIN_core c pst gpt ghs _ t _ _ _ _ HL Ht Hinv' Hrel); cbn [map snd fst app]; rewrite ?Hg, ?upd_g_same; cbn [wof].
+    + rewrite khist_cons. cbn [h_op]. rewrite E, N.eqb_refl. reflexivity.
+    + constructor; [|constructor]. split; [|cbn; lia]. unfold kc_of. cbn [fst snd h_inv h_resp h_op h_res].
+      apply (valid_pt_mono _ _ (now c)); [lia|]. apply (valid_pt_ext (trv pst) _ (now c)); [|cbn; lia|exact Hv].
+      intros j Hj. unfold trv. rewrite upd_pst_old by lia. reflexivity.
+    + rewrite ?app_nil_r. destruct pt; cbn; repeat constructor. intros [].
+    + rewrite ?app_nil_r. intros l Hl. right. destruct pt; exact Hl.
+    + rewrite ?app_nil_r. intros l Hl. destruct pt; exact Hl.
+    + left. exact Habs.
+    + reflexivity.
+    + intros t' Hne. apply upd_g_other. exact Hne.
+  - exists gpt, ([] ++ ghs).
+    apply (LIN_core c pst gpt ghs _ t _ _ _ _ HL Ht Hinv' Hrel); cbn [map wpts app]; rewrite ?Hp; cbn [wof].
+    + rewrite khist_cons. cbn [h_op]. destruct (N.eqb_spec (op_key o) k); [contradiction|reflexivity].
+    + constructor.
+    + constructor.
+    + intros l [].
+    + intros l [].
+    + left. exact Habs.
+    + reflexivity.
+    + reflexivity.
+Qed.
+
+(* ---------- sequential-specification facts ---------- *)
+Lemma oeqb_refl a : oeqb a a = true.
+Proof. destruct a; cbn; [apply Z.eqb_refl|reflexivity]. Qed.
+Lemma kapply_get st : kapply st (KGet st) = Some st.
+Proof. cbn. rewrite oeqb_refl. reflexivity. Qed.
+Lemma kapply_insert st v : kapply st (KInsert v st) = Some (Some v).
+Proof. cbn. rewrite oeqb_refl. reflexivity. Qed.
+Lemma kapply_try_some cur v : kapply (Some cur) (KTryInsert v (Some cur)) = Some (Some cur).
+Proof. cbn. rewrite Z.eqb_refl. reflexivity. Qed.
+Lemma kapply_remove st : kapply st (KRemove st) = Some None.
+Proof. cbn. rewrite oeqb_refl. reflexivity. Qed.
+Lemma kapply_compute f seen : kapply (Some seen) (KCompute f (Some seen) (f seen)) = Some (f seen).
+Proof. cbn. rewrite Z.eqb_refl, oeqb_refl. reflexivity. Qed.
+
+(* ---------- establishing the new linearization point ---------- *)
+Lemma trv_new pst n s' : trv (upd_pst pst (n + 1) s') (n + 1) = absv s'.
+Proof. unfold trv. rewrite upd_pst_new. reflexivity. Qed.
+Lemma trv_old pst n s' j : j <= n -> trv (upd_pst pst (n + 1) s') j = trv pst j.
+Proof. intros H. unfold trv. rewrite upd_pst_old by lia. reflexivity. Qed.
+Lemma trv_now pst n s : trace_ok pst n s -> trv pst n = absv s.
+Proof. intros (E & _). unfold trv. rewrite E. reflexivity. Qed.
+
+Lemma new_pt_write c pst s' iv o r before after :
+  trace_ok pst (now c) (sh c) -> iv <= now c -> kview (op_key o) (sh c) s' before after ->
+  kapply before (kop_of o r) = Some after ->
+  new_pt_ok (upd_pst pst (now c + 1) s') c s' iv o r.
+Proof.
+  intros Htr Hi (_ & Hk & Hnk) Hap. split; [|exact Hnk]. intros E. destruct (Hk E) as [Hb Ha].
+  exists (PW (now c + 1)). split; [|left; reflexivity]. cbn. split; [lia|].
+  replace (now c + 1 - 1) with (now c) by lia. rewrite trv_new, trv_old, (trv_now _ _ _ Htr), Hb, Ha by lia. exact Hap.
+Qed.
+
+Lemma new_pt_hind c pst iv o r :
+  (op_key o = k -> exists j, iv <= j <= now c /\ kapply (trv pst j) (kop_of o r) = Some (trv pst j)) ->
+  new_pt_ok (upd_pst pst (now c + 1) (sh c)) c (sh c) iv o r.
+Proof.
+  intros H. split; [|reflexivity]. intros E. destruct (H E) as (j & Hj & Hap). exists (PR j). split.
+  - cbn. split; [lia|]. rewrite trv_old by lia. exact Hap.
+  - right. exists j. auto.
+Qed.
+
+Lemma new_pt_read c pst iv o r :
+  trace_ok pst (now c) (sh c) -> iv <= now c ->
+  (op_key o = k -> kapply (absv (sh c)) (kop_of o r) = Some (absv (sh c))) ->
+  new_pt_ok (upd_pst pst (now c + 1) (sh c)) c (sh c) iv o r.
+Proof.
+  intros Htr Hi H. apply new_pt_hind. intros E. exists (now c). split; [lia|].
+  rewrite (trv_now _ _ _ Htr). apply H. exact E.
+Qed.
+
+(* what a lock-free reader standing at p can rely on *)
+Lemma reader_view c pst iv p :
+  trace_ok pst (now c) (sh c) -> (exists j, iv <= j <= now c /\ Pk (pst j) p) ->
+  exists j, iv <= j <= now c /\ Pk (pst j) p /\ cell_at (pst j) p = cell_at (sh c) p.
+Proof.
+  intros Htr (j & Hj & HP). destruct (hindsight_now _ _ _ _ _ Htr (proj2 Hj) HP) as [H|(j' & Hj' & HP' & _ & Hc)].
+  - exists (now c). destruct Htr as (E & _). rewrite E. split; [lia|]. auto.
+  - exists j'. split; [lia|]. auto.
+Qed.
+
+Lemma LIN_reader c pst gpt ghs t o p :
+  LIN c pst gpt ghs -> cur (get_thr c t) = Some o -> op_key o = k ->
+  (exists k', at_ (get_thr c t) = GWalk k' p) \/ (exists k' v, at_ (get_thr c t) = PutFast k' v p) ->
+  exists j, inv_at (get_thr c t) <= j <= now c /\ Pk (pst j) p.
+Proof.
+  intros (_ & _ & _ & _ & _ & _ & Hp) Hc E Hat. specialize (Hp t). unfold pend_thr in Hp. rewrite Hc, E, N.eqb_refl in Hp.
+  destruct Hp as [_ Hp]. destruct Hat as [(k' & Ha)|(k' & v & Ha)]; rewrite Ha in Hp; tauto.
+Qed.
+
+Lemma walking_hit s t h pre p : sh_inv s -> walking s t k h pre p -> keyat s p = k -> absv s = Some (cval (cell_at s p)).
+Proof. intros Hi Hw Hk. destruct (swap_effect2 _ _ _ _ _ _ 0%Z Hi Hw Hk) as (_ & H & _). apply H. reflexivity. Qed.
+Lemma walking_miss s t h pre p : sh_inv s -> walking s t k h pre p -> keyat s p <> k -> cnext (cell_at s p) = None -> absv s = None.
+Proof. intros Hi Hw Hk Hn. destruct (append_effect2 _ _ _ _ _ _ 0%Z Hi Hw Hk Hn) as (_ & H & _). apply H. reflexivity. Qed.
+
+Lemma op_key_put k' v nr : op_key (put_op k' v nr) = k'.
+Proof. destruct nr; reflexivity. Qed.
+
+(* ---------- one step preserves the linearization invariant ---------- *)
+Lemma sh_finish c t r : sh (finish c t r) = sh c.
+Proof. unfold BinProto.finish. destruct (cur (BinProto.get_thr c t)); reflexivity. Qed.
+(* the outcome of a step: the ghost can be extended, and the abstract value of k changes only in
+   steps of operations on k *)
+Definition step_ok (c : cfg) (t : nat) (c' : cfg) : Prop :=
+  (exists pst' gpt' ghs', LIN c' pst' gpt' ghs') /\
+  (absv (sh c') = absv (sh c) \/ exists o, cur (get_thr c t) = Some o /\ op_key o = k).
+
+Lemma new_pt_ok_cross pst' c s' iv o r : new_pt_ok pst' c s' iv o r -> absv s' = absv (sh c) \/ op_key o = k.
+Proof. intros [_ H]. destruct (N.eq_dec (op_key o) k) as [E|E]; [right; exact E|left; apply H; exact E]. Qed.
+
+Lemma LIN_goto_silent' c pst gpt ghs t o s' p :
+  LIN c pst gpt ghs -> (t < length (thr c))%nat -> cur (get_thr c t) = Some o ->
+  (forall h r, at_ (get_thr c t) <> PutUnlock h r None) ->
+  sh_inv s' -> hs_rel (sh c) s' -> absv s' = absv (sh c) ->
+  (op_key o = k -> pc_pend (upd_pst pst (now c + 1) s') (now c + 1) (inv_at (get_thr c t)) p) ->
+  step_ok c t (goto (with_sh (bump c) s') t p).
+Proof. intros H1 H2 H3 H4 H5 H6 H7 H8. split; [|left; exact H7]. eexists _, _, _. eapply LIN_goto_silent; eassumption. Qed.
+Lemma LIN_goto_unlock' c pst gpt ghs t o s' h r :
+  LIN c pst gpt ghs -> (t < length (thr c))%nat -> cur (get_thr c t) = Some o ->
+  (forall h r, at_ (get_thr c t) <> PutUnlock h r None) ->
+  sh_inv s' -> hs_rel (sh c) s' ->
+  new_pt_ok (upd_pst pst (now c + 1) s') c s' (inv_at (get_thr c t)) o r ->
+  step_ok c t (goto (with_sh (bump c) s') t (PutUnlock h r None)).
+Proof.
+  intros H1 H2 H3 H4 H5 H6 H7. destruct (LIN_goto_unlock _ _ _ _ _ _ _ h _ H1 H2 H3 H4 H5 H6 H7) as (g & H).
+  split; [eauto|]. destruct (new_pt_ok_cross _ _ _ _ _ _ H7) as [E|E]; [left; exact E|right; eauto].
+Qed.
+Lemma LIN_finish_direct' c pst gpt ghs t o s' r :
+  LIN c pst gpt ghs -> (t < length (thr c))%nat -> cur (get_thr c t) = Some o ->
+  (forall h r, at_ (get_thr c t) <> PutUnlock h r None) ->
+  sh_inv s' -> hs_rel (sh c) s' ->
+  new_pt_ok (upd_pst pst (now c + 1) s') c s' (inv_at (get_thr c t)) o r ->
+  step_ok c t (finish (with_sh (bump c) s') t r).
+Proof.
+  intros H1 H2 H3 H4 H5 H6 H7. destruct (LIN_finish_direct _ _ _ _ _ _ _ _ H1 H2 H3 H4 H5 H6 H7) as (g & H).
+  split; [eauto|]. rewrite sh_finish. destruct (new_pt_ok_cross _ _ _ _ _ _ H7) as [E|E]; [left; exact E|right; eauto].
+Qed.
+Lemma LIN_finish_unlock' c pst gpt ghs t o h r :
+  binv c -> LIN c pst gpt ghs -> (t < length (thr c))%nat -> cur (get_thr c t) = Some o ->
+  at_ (get_thr c t) = PutUnlock h r None ->
+  sh_inv (set_lock (sh c) h None) ->
+  step_ok c t (finish (with_sh (bump c) (set_lock (sh c) h None)) t r).
+Proof.
+  intros H1 H2 H3 H4 H5 H6. destruct (LIN_finish_unlock _ _ _ _ _ _ _ _ H1 H2 H3 H4 H5 H6) as (g & g' & H).
+  split; [eauto|]. rewrite sh_finish. left. exact (proj2 (hs_rel_same (sh c) (set_lock (sh c) h None) (proj1 H1) eq_refl eq_refl)).
+Qed.
+
+Lemma LIN_step c t pst gpt ghs :
+  binv c -> LIN c pst gpt ghs -> step_ok c t (step c t).
+Proof.
+  intros Hinv HL. pose proof (binv_step c t Hinv) as (Hsh' & _).
+  pose proof Hinv as (Hsh & Hthr & Hlk). destruct (Hthr t) as [Hpi Hcu].
+  pose proof (proj1 HL) as Htr.
+  destruct (hs_rel_same (sh c) (sh c) Hsh eq_refl eq_refl) as [Hrel0 _].
+  assert (Hsame : forall s', heap s' = heap (sh c) -> bins s' = bins (sh c) -> hs_rel (sh c) s' /\ absv s' = absv (sh c))
+    by (intros s'; apply hs_rel_same; exact Hsh).
+  revert Hsh'.
+  unfold BinProto.step. change (mkCfg (sh c) (thr c) (now c + 1)%N (hist c)) with (bump c). cbv zeta.
+  change (BinProto.get_thr (bump c) t) with (get_thr c t). change (sh (bump c)) with (sh c).
+  unfold thr_cur in Hcu.
+  destruct (at_ (get_thr c t)) as [o | k' p | k' v nr | k' v h | k' v nr h | k' v nr h | k' v nr h p | h r retry
+     | k' h | k' h | k' h pred e | k' h pred e nxt | k' h pred e nxt ev
+     | k' f h | k' f h | k' f h pred p | k' f h pred p nxt | k' h pred p nxt seen nv | ] eqn:Hpc.
+  all: try (assert (Ht : (t < length (thr c))%nat) by (apply thr_lt; left; rewrite Hpc; discriminate)).
+  all: destruct (cur (get_thr c t)) as [o0|] eqn:Hcur; try discriminate Hcu; try contradiction Hcu.
+  all: cbn [pc_inv pc_cur] in Hpi, Hcu.
+  all: try (assert (Hnu : forall h r, at_ (get_thr c t) <> PutUnlock h r None) by (rewrite Hpc; discriminate)).
+  all: try pose proof (LIN_inv_le _ _ _ _ _ _ HL Hcur) as Hiv.
+  - (* PStart *) subst o0.
+    destruct (bin_at (sh c) (bini (op_key o))) as [h|] eqn:Hb.
+    + destruct o as [k'|k' v|k' v|k'|k' f]; cbn [op_key] in *;
+        [ | | destruct (N.eqb_spec (ckey (cell_at (sh c) h)) k') as [Hk|Hk] | | ];
+        intros _; rewrite (with_sh_bump c); 
+        (eapply LIN_goto_silent'; [exact HL|exact Ht|exact Hcur|exact Hnu|exact Hsh|exact Hrel0|reflexivity|]);
+        cbn [op_key pc_pend]; intros E; try exact I;
+        (exists (now c + 1); split; [lia|]; rewrite upd_pst_new; apply Pk_head; [exact Hsh|rewrite <- E; exact Hb]).
+    + destruct o as [k'|k' v|k' v|k'|k' f]; cbn [op_key] in *; intros _; rewrite (with_sh_bump c).
+      * 
+        eapply LIN_finish_direct'; [exact HL|exact Ht|exact Hcur|exact Hnu|exact Hsh|exact Hrel0|].
+        apply new_pt_read; [exact Htr|exact Hiv|]. cbn [op_key]. intros E. rewrite absv_empty; [reflexivity|exact Hsh|rewrite <- E; exact Hb].
+      * 
+        eapply LIN_goto_silent'; [exact HL|exact Ht|exact Hcur|exact Hnu|exact Hsh|exact Hrel0|reflexivity|intros _; exact I].
+      * 
+        eapply LIN_goto_silent'; [exact HL|exact Ht|exact Hcur|exact Hnu|exact Hsh|exact Hrel0|reflexivity|intros _; exact I].
+      * 
+        eapply LIN_finish_direct'; [exact HL|exact Ht|exact Hcur|exact Hnu|exact Hsh|exact Hrel0|].
+        apply new_pt_read; [exact Htr|exact Hiv|]. cbn [op_key]. intros E. rewrite absv_empty; [reflexivity|exact Hsh|rewrite <- E; exact Hb].
+      * 
+        eapply LIN_finish_direct'; [exact HL|exact Ht|exact Hcur|exact Hnu|exact Hsh|exact Hrel0|].
+        apply new_pt_read; [exact Htr|exact Hiv|]. cbn [op_key]. intros E. rewrite absv_empty; [reflexivity|exact Hsh|rewrite <- E; exact Hb].
+  - (* GWalk *) subst o0.
+    assert (HR : k' = k -> exists j, inv_at (get_thr c t) <= j <= now c /\ Pk (pst j) p /\ cell_at (pst j) p = cell_at (sh c) p).
+    { intros E. apply reader_view; [exact Htr|]. eapply LIN_reader; [exact HL|exact Hcur|exact E|left; eauto]. }
+    destruct (N.eqb_spec (ckey (cell_at (sh c) p)) k') as [Hk|Hk]; [|destruct (cnext (cell_at (sh c) p)) as [q|] eqn:Hq];
+      intros _; rewrite (with_sh_bump c).
+    + 
+      eapply LIN_finish_direct'; [exact HL|exact Ht|exact Hcur|exact Hnu|exact Hsh|exact Hrel0|].
+      apply new_pt_hind. cbn [op_key]. intros E. destruct (HR E) as (j & Hj & HP & Hc). exists j. split; [exact Hj|].
+      unfold trv. rewrite (Pk_hit _ _ HP) by (unfold keyat; rewrite Hc; congruence). rewrite Hc. apply kapply_get.
+    + 
+      eapply LIN_goto_silent'; [exact HL|exact Ht|exact Hcur|exact Hnu|exact Hsh|exact Hrel0|reflexivity|].
+      cbn [op_key pc_pend]. intros E. destruct (HR E) as (j & Hj & HP & Hc). exists j. split; [lia|].
+      rewrite upd_pst_old by lia. eapply Pk_next; [exact HP|unfold keyat; rewrite Hc; congruence|rewrite Hc; exact Hq].
+    + 
+      eapply LIN_finish_direct'; [exact HL|exact Ht|exact Hcur|exact Hnu|exact Hsh|exact Hrel0|].
+      apply new_pt_hind. cbn [op_key]. intros E. destruct (HR E) as (j & Hj & HP & Hc). exists j. split; [exact Hj|].
+      unfold trv. rewrite (Pk_miss _ _ HP); [reflexivity|unfold keyat; rewrite Hc; congruence|rewrite Hc; exact Hq].
+  - (* PutCas *) subst o0.
+    destruct (bin_at (sh c) (bini k')) as [h|] eqn:Hb.
+    + intros _; rewrite (with_sh_bump c). 
+      eapply LIN_goto_silent'; [exact HL|exact Ht|exact Hcur|exact Hnu|exact Hsh|exact Hrel0|reflexivity|intros _; destruct nr; exact I].
+    + rewrite alloc_eq. cbv beta iota. change (sh (bump c)) with (sh c). intros Hsh'.
+      rewrite sh_finish in Hsh'. pose proof (cas_effect2 _ k' v Hsh Hb) as Hkv. 
+      eapply LIN_finish_direct'; [exact HL|exact Ht|exact Hcur|exact Hnu|exact Hsh'|exact (proj1 Hkv)|].
+      eapply new_pt_write; [exact Htr|exact Hiv|rewrite op_key_put; exact Hkv|]. destruct nr; reflexivity.
+  - (* PutFast *) subst o0. destruct Hpi as [Hh Hkh]. intros _; rewrite (with_sh_bump c).
+    
+    eapply LIN_finish_direct'; [exact HL|exact Ht|exact Hcur|exact Hnu|exact Hsh|exact Hrel0|].
+    apply new_pt_hind. cbn [op_key]. intros E.
+    assert (HR : exists j, inv_at (get_thr c t) <= j <= now c /\ Pk (pst j) h /\ cell_at (pst j) h = cell_at (sh c) h).
+    { apply reader_view; [exact Htr|]. eapply LIN_reader; [exact HL|exact Hcur|exact E|right; eauto]. }
+    destruct HR as (j & Hj & HP & Hc). exists j. split; [exact Hj|].
+    unfold trv. rewrite (Pk_hit _ _ HP) by (unfold keyat in *; rewrite Hc; congruence). rewrite Hc. apply kapply_try_some.
+  - (* PutLock *)
+    destruct (lock_at (sh c) h) as [u|] eqn:Hl; [intros _; split; [exists pst, gpt, ghs; exact HL|left; reflexivity]|]. intros Hsh'.
+    destruct (Hsame (set_lock (sh c) h (Some t)) eq_refl eq_refl) as [Hr Ha]. 
+    eapply LIN_goto_silent'; [exact HL|exact Ht|exact Hcur|exact Hnu|exact Hsh'|exact Hr|exact Ha|intros _; exact I].
+  - (* PutReval *)
+    destruct (bin_at (sh c) (bini k')) as [h'|] eqn:Hb; [destruct (Nat.eqb_spec h' h) as [->|Hne]|];
+      intros _; rewrite (with_sh_bump c); 
+      (eapply LIN_goto_silent'; [exact HL|exact Ht|exact Hcur|exact Hnu|exact Hsh|exact Hrel0|reflexivity|intros _; exact I]).
+  - (* PutWalk *) subst o0. destruct Hpi as (pre & Hw).
+    destruct (N.eqb_spec (ckey (cell_at (sh c) p)) k') as [Hk|Hk]; [destruct nr|destruct (cnext (cell_at (sh c) p)) as [q|] eqn:Hq].
+    + intros _; rewrite (with_sh_bump c). 
+      eapply LIN_goto_unlock'; [exact HL|exact Ht|exact Hcur|exact Hnu|exact Hsh|exact Hrel0|].
+      apply new_pt_read; [exact Htr|exact Hiv|]. cbn [op_key put_op]. intros E. rewrite E in *.
+      rewrite (walking_hit _ _ _ _ _ Hsh Hw Hk). apply kapply_try_some.
+    + intros Hsh'. pose proof (swap_effect2 _ _ _ _ _ _ v Hsh Hw Hk) as Hkv. 
+      eapply LIN_goto_unlock'; [exact HL|exact Ht|exact Hcur|exact Hnu|exact Hsh'|exact (proj1 Hkv)|].
+      eapply new_pt_write; [exact Htr|exact Hiv|exact Hkv|]. apply kapply_insert.
+    + intros _; rewrite (with_sh_bump c). 
+      eapply LIN_goto_silent'; [exact HL|exact Ht|exact Hcur|exact Hnu|exact Hsh|exact Hrel0|reflexivity|intros _; exact I].
+    + rewrite alloc_eq. cbv beta iota. change (sh (bump c)) with (sh c). intros Hsh'.
+      pose proof (append_effect2 _ _ _ _ _ _ v Hsh Hw Hk Hq) as Hkv. 
+      eapply LIN_goto_unlock'; [exact HL|exact Ht|exact Hcur|exact Hnu|exact Hsh'|exact (proj1 Hkv)|].
+      eapply new_pt_write; [exact Htr|exact Hiv|rewrite op_key_put; exact Hkv|]. destruct nr; reflexivity.
+  - (* PutUnlock *)
+    change (sh (bump c)) with (sh c). destruct retry as [o'|]; intros Hsh'.
+    + destruct (Hsame (set_lock (sh c) h None) eq_refl eq_refl) as [Hr Ha]. 
+      eapply LIN_goto_silent'; [exact HL|exact Ht|exact Hcur|rewrite Hpc; discriminate|exact Hsh'|exact Hr|exact Ha|intros _; exact I].
+    + rewrite sh_finish in Hsh'.  eapply LIN_finish_unlock'; [exact Hinv|exact HL|exact Ht|exact Hcur|exact Hpc|exact Hsh'].
+  - (* RmLock *)
+    destruct (lock_at (sh c) h) as [u|] eqn:Hl; [intros _; split; [exists pst, gpt, ghs; exact HL|left; reflexivity]|]. intros Hsh'.
+    destruct (Hsame (set_lock (sh c) h (Some t)) eq_refl eq_refl) as [Hr Ha]. 
+    eapply LIN_goto_silent'; [exact HL|exact Ht|exact Hcur|exact Hnu|exact Hsh'|exact Hr|exact Ha|intros _; exact I].
+  - (* RmReval *)
+    destruct (bin_at (sh c) (bini k')) as [h'|] eqn:Hb; [destruct (Nat.eqb_spec h' h) as [->|Hne]|];
+      intros _; rewrite (with_sh_bump c); 
+      (eapply LIN_goto_silent'; [exact HL|exact Ht|exact Hcur|exact Hnu|exact Hsh|exact Hrel0|reflexivity|intros _; exact I]).
+  - (* RmWalk *) subst o0. destruct Hpi as (pre & Hw & Hpr).
+    destruct (N.eqb_spec (ckey (cell_at (sh c) e)) k') as [Hk|Hk]; [|destruct (cnext (cell_at (sh c) e)) as [q|] eqn:Hq];
+      intros _; rewrite (with_sh_bump c).
+    + 
+      eapply LIN_goto_silent'; [exact HL|exact Ht|exact Hcur|exact Hnu|exact Hsh|exact Hrel0|reflexivity|intros _; exact I].
+    + 
+      eapply LIN_goto_silent'; [exact HL|exact Ht|exact Hcur|exact Hnu|exact Hsh|exact Hrel0|reflexivity|intros _; exact I].
+    + 
+      eapply LIN_goto_unlock'; [exact HL|exact Ht|exact Hcur|exact Hnu|exact Hsh|exact Hrel0|].
+      apply new_pt_read; [exact Htr|exact Hiv|]. cbn [op_key]. intros E. subst k'.
+      rewrite (walking_miss _ _ _ _ _ Hsh Hw Hk Hq). reflexivity.
+  - (* RmFound *)
+    intros _; rewrite (with_sh_bump c). 
+    eapply LIN_goto_silent'; [exact HL|exact Ht|exact Hcur|exact Hnu|exact Hsh|exact Hrel0|reflexivity|intros _; exact I].
+  - (* RmUnlink *) subst o0. destruct Hpi as (pre & Hw & Hpr & Hk & Hn & Hv). subst nxt ev. intros Hsh'.
+    pose proof (unlink_effect2 _ _ _ _ _ _ _ Hsh Hw Hpr Hk) as Hkv. 
+    eapply LIN_goto_unlock'; [exact HL|exact Ht|exact Hcur|exact Hnu|exact Hsh'|exact (proj1 Hkv)|].
+    eapply new_pt_write; [exact Htr|exact Hiv|exact Hkv|]. apply kapply_remove.
+  - (* CpLock *)
+    destruct (lock_at (sh c) h) as [u|] eqn:Hl; [intros _; split; [exists pst, gpt, ghs; exact HL|left; reflexivity]|]. intros Hsh'.
+    destruct (Hsame (set_lock (sh c) h (Some t)) eq_refl eq_refl) as [Hr Ha]. 
+    eapply LIN_goto_silent'; [exact HL|exact Ht|exact Hcur|exact Hnu|exact Hsh'|exact Hr|exact Ha|intros _; exact I].
+  - (* CpReval *)
+    destruct (bin_at (sh c) (bini k')) as [h'|] eqn:Hb; [destruct (Nat.eqb_spec h' h) as [->|Hne]|];
+      intros _; rewrite (with_sh_bump c); 
+      (eapply LIN_goto_silent'; [exact HL|exact Ht|exact Hcur|exact Hnu|exact Hsh|exact Hrel0|reflexivity|intros _; exact I]).
+  - (* CpWalk *) subst o0. destruct Hpi as (pre & Hw & Hpr).
+    destruct (N.eqb_spec (ckey (cell_at (sh c) p)) k') as [Hk|Hk]; [|destruct (cnext (cell_at (sh c) p)) as [q|] eqn:Hq];
+      intros _; rewrite (with_sh_bump c).
+    + 
+      eapply LIN_goto_silent'; [exact HL|exact Ht|exact Hcur|exact Hnu|exact Hsh|exact Hrel0|reflexivity|intros _; exact I].
+    + 
+      eapply LIN_goto_silent'; [exact HL|exact Ht|exact Hcur|exact Hnu|exact Hsh|exact Hrel0|reflexivity|intros _; exact I].
+    + 
+      eapply LIN_goto_unlock'; [exact HL|exact Ht|exact Hcur|exact Hnu|exact Hsh|exact Hrel0|].
+      apply new_pt_read; [exact Htr|exact Hiv|]. cbn [op_key]. intros E. subst k'.
+      rewrite (walking_miss _ _ _ _ _ Hsh Hw Hk Hq). reflexivity.
+  - (* CpFound *)
+    intros _; rewrite (with_sh_bump c). 
+    eapply LIN_goto_silent'; [exact HL|exact Ht|exact Hcur|exact Hnu|exact Hsh|exact Hrel0|reflexivity|intros _; exact I].
+  - (* CpApply *) destruct Hcu as (f & -> & ->). destruct Hpi as (pre & Hw & Hpr & Hk & Hn & Hv). subst nxt seen.
+    destruct (f (cval (cell_at (sh c) p))) as [v'|] eqn:Hf; intros Hsh'.
+    + pose proof (swap_effect2 _ _ _ _ _ _ v' Hsh Hw Hk) as Hkv. 
+      eapply LIN_goto_unlock'; [exact HL|exact Ht|exact Hcur|exact Hnu|exact Hsh'|exact (proj1 Hkv)|].
+      eapply new_pt_write; [exact Htr|exact Hiv|exact Hkv|]. cbn [kop_of]. rewrite <- Hf. apply kapply_compute.
+    + pose proof (unlink_effect2 _ _ _ _ _ _ _ Hsh Hw Hpr Hk) as Hkv. 
+      eapply LIN_goto_unlock'; [exact HL|exact Ht|exact Hcur|exact Hnu|exact Hsh'|exact (proj1 Hkv)|].
+      eapply new_pt_write; [exact Htr|exact Hiv|exact Hkv|]. cbn [kop_of]. rewrite <- Hf. apply kapply_compute.
+  - (* PDone *)
+    destruct (todo (get_thr c t)) as [|o rest] eqn:Htodo; [intros _; split; [exists pst, gpt, ghs; exact HL|left; reflexivity]|].
+    assert (Ht : (t < length (thr c))%nat) by (apply thr_lt; right; rewrite Htodo; discriminate).
+    intros _. unfold BinProto.set_thr. cbn [sh thr now hist bump].
+     split; [|left; reflexivity]. exists (upd_pst pst (now c + 1) (sh c)), gpt, ghs. apply LIN_invoke; assumption.
+Qed.
+
+(* ---------- every reachable configuration carries a linearization ghost ---------- *)
+Lemma LIN_init progs : LIN (init progs) (fun _ => sh (init progs)) (fun _ => None) [].
+Proof.
+  split; [|split; [|split; [|split; [|split; [|split]]]]].
+  - split; [reflexivity|]. split; [reflexivity|]. split; [intros j Hj; cbn in Hj; lia|]. intros j _. apply (binv_init progs).
+  - reflexivity.
+  - constructor.
+  - constructor.
+  - intros t l H. discriminate.
+  - intros l Hl. cbn in Hl. lia.
+  - intros t. unfold pend_thr. destruct (get_thr_init progs t) as [_ ->]. reflexivity.
+Qed.
+
+Lemma LIN_run sched : forall c pst gpt ghs, binv c -> LIN c pst gpt ghs ->
+  exists pst' gpt' ghs', LIN (run c sched) pst' gpt' ghs'.
+Proof.
+  induction sched as [|t sched IH]; intros c pst gpt ghs Hb HL; [eauto|].
+  cbn. destruct (LIN_step c t _ _ _ Hb HL) as ((pst' & gpt' & ghs' & HL') & _). eapply IH; [apply binv_step; exact Hb|exact HL'].
+Qed.
+
+Lemma all_done_at c t : all_done c = true -> at_ (get_thr c t) = PDone.
+Proof.
+  intros H. unfold all_done in H. rewrite forallb_forall in H. unfold BinProto.get_thr.
+  destruct (Nat.lt_ge_cases t (length (thr c))) as [Hl|Hl]; [|rewrite nth_overflow by exact Hl; reflexivity].
+  specialize (H _ (nth_In _ (mkT [] None PDone 0) Hl)). destruct (at_ (nth t (thr c) (mkT [] None PDone 0))); try discriminate. reflexivity.
+Qed.
+
+Lemma LIN_linearizable c pst gpt ghs :
+  LIN c pst gpt ghs -> (forall t, gpt t = None) ->
+  linearizable None (key_history c k) (Some (lookup khash nbins c k)).
+Proof.
+  intros (Htr & Hmap & Hdone & Hnd & _ & Hcov & _) Hnone.
+  set (cs := map (fun hp : hcall * point => (kc_of (fst hp), snd hp)) ghs).
+  assert (E1 : map fst cs = key_history c k).
+  { unfold cs. rewrite map_map. cbn [fst]. rewrite key_history_khist, <- Hmap, map_map. reflexivity. }
+  assert (E2 : map snd cs = map snd ghs) by (unfold cs; rewrite map_map; reflexivity).
+  pose proof (assemble (trv pst) (now c) cs) as HA. rewrite E1, E2 in HA.
+  destruct Htr as (Hnow & H0 & _).
+  assert (E3 : trv pst 0 = None) by exact H0.
+  assert (E4 : trv pst (now c) = lookup khash nbins c k) by (unfold trv; rewrite Hnow; reflexivity).
+  rewrite E3, E4 in HA. apply HA.
+  - intros cl pt Hin. unfold cs in Hin. apply in_map_iff in Hin as ([h pt'] & E & Hin). cbn in E. injection E as <- <-.
+    rewrite Forall_forall in Hdone. destruct (Hdone _ Hin) as [Hv Hr]. cbn [fst snd] in *. split; [exact Hv|].
+    apply valid_pt_pos in Hv. cbn in Hv. lia.
+  - exact Hnd.
+  - intros l Hl Hch. destruct (Hcov l Hl Hch) as [Hin|(t & Hg)]; [exact Hin|]. rewrite Hnone in Hg. discriminate.
+Qed.
+
+Theorem binproto_linearizable_k progs sched :
+  let c := run (init progs) sched in
+  all_done c = true -> linearizable None (key_history c k) (Some (lookup khash nbins c k)).
+Proof.
+  intros c Hdone. destruct (LIN_run sched _ _ _ _ (binv_init progs) (LIN_init progs)) as (pst & gpt & ghs & HL).
+  fold c in HL. apply (LIN_linearizable c pst gpt ghs HL). intros t.
+  destruct (gpt t) as [pt|] eqn:Hg; [|reflexivity]. exfalso.
+  destruct HL as (_ & _ & _ & _ & _ & _ & Hp). destruct (pend_thr_gpt _ _ _ _ _ (Hp t) Hg) as (o & h & r & _ & _ & Ha & _).
+  rewrite (all_done_at c t Hdone) in Ha. discriminate.
+Qed.
+
+Lemma LIN_reach progs sched : exists pst gpt ghs, LIN (run (init progs) sched) pst gpt ghs.
+Proof. apply (LIN_run sched _ _ _ _ (binv_init progs) (LIN_init progs)). Qed.
+
+(* a step that changes the abstract value of key k belongs to an operation on key k *)
+Theorem no_cross_key_k progs sched t :
+  let c := run (init progs) sched in
+  lookup khash nbins (step c t) k <> lookup khash nbins c k ->
+  exists o, cur (get_thr c t) = Some o /\ op_key o = k.
+Proof.
+  intros c Hne. destruct (LIN_reach progs sched) as (pst & gpt & ghs & HL). fold c in HL.
+  destruct (LIN_step c t _ _ _ (binproto_inv progs sched) HL) as (_ & [E|H]); [|exact H].
+  exfalso. apply Hne. exact E.
+Qed.
+
+(* C08: compute_if_present is atomic.  In the sequential witness, the state just before a completed
+   compute call that reported `Some seen` to its callback is `Some seen`, the returned value is
+   `f seen`, and the state just after it is `f seen`. *)
+Lemma legal_split st pre x post st' :
+  legal st (pre ++ x :: post) = Some st' ->
+  exists s0 s1, legal st pre = Some s0 /\ kapply s0 (c_op x) = Some s1 /\ legal s1 post = Some st'.
+Proof.
+  rewrite legal_app. destruct (legal st pre) as [s0|]; [|discriminate]. cbn.
+  destruct (kapply s0 (c_op x)) as [s1|] eqn:Ek; [|discriminate]. intros H. exists s0, s1. auto.
+Qed.
+Lemma kapply_compute_inv s0 f seen ret s1 :
+  kapply s0 (KCompute f (Some seen) ret) = Some s1 -> s0 = Some seen /\ ret = f seen /\ s1 = f seen.
+Proof.
+  cbn. destruct s0 as [s|]; [|cbn; discriminate].
+  destruct (Z.eqb_spec seen s) as [->|]; [|discriminate]. destruct (oeqb ret (f s)) eqn:E2; [|discriminate].
+  cbn. intros H. injection H as <-. apply oeqb_eq in E2. auto.
+Qed.
+
+Theorem compute_atomic_k progs sched :
+  let c := run (init progs) sched in
+  all_done c = true ->
+  exists order, Permutation order (key_history c k) /\ respects_rt order /\
+    legal None order = Some (lookup khash nbins c k) /\
+    forall h f seen ret, In h (hist c) -> h_op h = OCompute k f -> h_res h = RComputed (Some seen) ret ->
+      ret = f seen /\
+      exists pre post, let x := C_ (h_inv h) (h_resp h) (KCompute f (Some seen) ret) in
+        order = pre ++ x :: post /\ legal None pre = Some (Some seen) /\ legal None (pre ++ [x]) = Some (f seen).
+Proof.
+  intros c Hdone. destruct (binproto_linearizable_k progs sched Hdone) as (order & st & Hperm & Hrt & Hleg & Hfin).
+  fold c in Hperm, Hfin. cbn in Hfin. subst st. exists order. split; [exact Hperm|]. split; [exact Hrt|]. split; [exact Hleg|].
+  intros h f seen ret Hin Hop Hres.
+  assert (Hx : In (C_ (h_inv h) (h_resp h) (KCompute f (Some seen) ret)) order).
+  { eapply Permutation_in; [apply Permutation_sym; exact Hperm|]. unfold key_history. apply in_map_iff. exists h. split.
+    - rewrite Hop, Hres. reflexivity.
+    - apply filter_In. split; [exact Hin|]. rewrite Hop. cbn. apply N.eqb_refl. }
+  apply in_split in Hx as (pre & post & ->).
+  destruct (legal_split _ _ _ _ _ Hleg) as (s0 & s1 & H0 & Hk & _). cbn [c_op] in Hk.
+  apply kapply_compute_inv in Hk as (-> & -> & ->). split; [reflexivity|]. exists pre, post. cbn zeta.
+  split; [reflexivity|]. split; [exact H0|]. rewrite legal_app, H0. cbn. rewrite Z.eqb_refl, oeqb_refl. reflexivity.
+Qed.
+
+(* ---------- the invariant form: every reachable configuration ---------- *)
+(* the pending operation of thread t on key k, if its result is already decided (it is about to
+   release its lock and respond): it is counted as a call responding "now" *)
+Definition pcall (c : cfg) (t : nat) : list kcall :=
+  let th := get_thr c t in
+  match cur th with
+  | Some o =>
+      if (op_key o =? k) then
+        match at_ th with
+        | PutUnlock _ r None => [C_ (inv_at th) (now c) (kop_of o r)]
+        | _ => []
+        end
+      else []
+  | None => []
+  end.
+Definition pending_calls (c : cfg) : list kcall := flat_map (pcall c) (seq 0 (length (thr c))).
+
+Lemma pcall_gpt c pst g t : pend_thr pst (now c) g (get_thr c t) ->
+  match g with
+  | None => pcall c t = []
+  | Some pt => exists x, pcall c t = [x] /\ valid_pt (trv pst) x pt
+  end.
+Proof.
+  unfold pend_thr, pcall. cbv zeta. destruct (cur (get_thr c t)) as [o|]; [|intros ->; reflexivity].
+  intros [_ H]. destruct (op_key o =? k); [|subst g; reflexivity].
+  destruct (at_ (get_thr c t)); try (subst g; reflexivity); try (destruct H as [-> _]; reflexivity).
+  destruct retry; [subst g; reflexivity|]. destruct H as (pt & -> & Hv). eauto.
+Qed.
+
+Definition pcs (c : cfg) (gpt : nat -> option point) (t : nat) : list (kcall * point) :=
+  match gpt t with Some pt => map (fun x => (x, pt)) (pcall c t) | None => [] end.
+
+Lemma flat_map_wof_nodup (gpt : nat -> option point) ts :
+  NoDup ts -> (forall t t' l, gpt t = Some (PW l) -> gpt t' = Some (PW l) -> t' = t) ->
+  NoDup (flat_map (fun t => wof (gpt t)) ts).
+Proof.
+  intros Hnd Hinj. induction Hnd as [|a ts Ha Hnd IH]; cbn; [constructor|].
+  apply NoDup_app_intro; [|exact IH|].
+  - destruct (gpt a) as [[l|j]|]; cbn; repeat constructor. intros [].
+  - intros l Hl Hin. apply wof_in in Hl. apply in_flat_map in Hin as (t' & Ht' & Hl'). apply wof_in in Hl'.
+    rewrite (Hinj _ _ _ Hl Hl') in Ht'. contradiction.
+Qed.
+
+Theorem LIN_linearizable_inv c pst gpt ghs :
+  binv c -> LIN c pst gpt ghs ->
+  linearizable None (key_history c k ++ pending_calls c) (Some (lookup khash nbins c k)).
+Proof.
+  intros Hb HL. pose proof HL as (Htr & Hmap & Hdone & Hnd & Huniq & Hcov & Hpend).
+  set (ts := seq 0 (length (thr c))).
+  set (cs := map (fun hp : hcall * point => (kc_of (fst hp), snd hp)) ghs ++ flat_map (pcs c gpt) ts).
+  assert (Hpc : forall t, match gpt t with None => pcall c t = []
+                          | Some pt => exists x, pcall c t = [x] /\ valid_pt (trv pst) x pt end)
+    by (intros t; eapply pcall_gpt; apply Hpend).
+  assert (F1 : forall l, map fst (flat_map (pcs c gpt) l) = flat_map (pcall c) l).
+  { induction l as [|a l IH]; [reflexivity|]. cbn [flat_map]. rewrite map_app, IH. f_equal.
+    unfold pcs. specialize (Hpc a). destruct (gpt a) as [pt|]; [|symmetry; exact Hpc].
+    rewrite map_map. cbn [fst]. apply map_id. }
+  assert (F2 : forall l, wpts (map snd (flat_map (pcs c gpt) l)) = flat_map (fun t => wof (gpt t)) l).
+  { induction l as [|a l IH]; [reflexivity|]. cbn [flat_map]. rewrite map_app, wpts_app, IH. f_equal.
+    unfold pcs. specialize (Hpc a). destruct (gpt a) as [pt|]; [|reflexivity].
+    destruct Hpc as (x & -> & _). destruct pt; reflexivity. }
+  assert (E1 : map fst cs = key_history c k ++ pending_calls c).
+  { unfold cs. rewrite map_app, F1. f_equal.
+    rewrite map_map. cbn [fst]. rewrite key_history_khist, <- Hmap, map_map. reflexivity. }
+  assert (E2 : wpts (map snd cs) = wpts (map snd ghs) ++ flat_map (fun t => wof (gpt t)) ts).
+  { unfold cs. rewrite map_app, wpts_app, F2. f_equal. rewrite map_map. reflexivity. }
+  pose proof (assemble (trv pst) (now c) cs) as HA. rewrite E1, E2 in HA.
+  destruct Htr as (Hnow & H0 & _).
+  assert (E3 : trv pst 0 = None) by exact H0.
+  assert (E4 : trv pst (now c) = lookup khash nbins c k) by (unfold trv; rewrite Hnow; reflexivity).
+  rewrite E3, E4 in HA. apply HA.
+  - intros cl pt Hin. unfold cs in Hin. apply in_app_or in Hin as [Hin|Hin].
+    + apply in_map_iff in Hin as ([h pt'] & E & Hin). cbn in E. injection E as <- <-.
+      rewrite Forall_forall in Hdone. destruct (Hdone _ Hin) as [Hv Hr]. cbn [fst snd] in *. split; [exact Hv|].
+      apply valid_pt_pos in Hv. cbn in Hv. lia.
+    + apply in_flat_map in Hin as (t & _ & Hin). unfold pcs in Hin. specialize (Hpc t).
+      destruct (gpt t) as [pt'|] eqn:Hg; [|contradiction]. destruct Hpc as (x & Hx & Hv). rewrite Hx in Hin.
+      destruct Hin as [E|[]]. injection E as <- <-. split; [exact Hv|].
+      exact (LIN_gpt_pos _ _ _ _ _ _ HL Hg).
+  - apply NoDup_app_intro; [exact Hnd| |].
+    + apply flat_map_wof_nodup; [apply seq_NoDup|]. intros t t' l H1 H2. exact (proj2 (Huniq _ _ H1) _ H2).
+    + intros l H1 H2. apply in_flat_map in H2 as (t & _ & Hl). apply wof_in in Hl. exact (proj1 (Huniq _ _ Hl) H1).
+  - intros l Hl Hch. apply in_or_app. destruct (Hcov l Hl Hch) as [Hin|(t & Hg)]; [left; exact Hin|right].
+    apply in_flat_map. exists t. split; [|apply wof_in; exact Hg]. apply in_seq. split; [lia|]. cbn. apply thr_lt. left.
+    destruct (pend_thr_gpt _ _ _ _ _ (Hpend t) Hg) as (o & h & r & _ & _ & Ha & _). rewrite Ha. discriminate.
+Qed.
+
+Theorem binproto_linearizable_inv_k progs sched :
+  let c := run (init progs) sched in
+  linearizable None (key_history c k ++ pending_calls c) (Some (lookup khash nbins c k)).
+Proof.
+  intros c. destruct (LIN_reach progs sched) as (pst & gpt & ghs & HL).
+  eapply LIN_linearizable_inv; [apply binproto_inv|exact HL].
+Qed.
+
+Lemma pending_calls_done c : all_done c = true -> pending_calls c = [].
+Proof.
+  intros Hd. unfold pending_calls. induction (seq 0 (length (thr c))) as [|a l IH]; [reflexivity|].
+  cbn [flat_map]. rewrite IH, app_nil_r. unfold pcall. cbv zeta. rewrite (all_done_at c a Hd).
+  destruct (cur (get_thr c a)) as [o|]; [|reflexivity]. destruct (op_key o =? k); reflexivity.
+Qed.
+
 (* END-OF-SECTION *)
 End Inv.
 
+(* ====================================================================== *)
+(* Final statements                                                        *)
+(* ====================================================================== *)
+
+(* (1) the shared-memory invariant (`binv`: acyclic live lists with increasing addresses, unique
+   keys per live list hashing to their bin, lock discipline, the walkers' view) holds in every
+   reachable configuration: `binproto_inv`, proved in the section above. *)
+Check binproto_inv.
+
+(* (2) deadlock freedom: `binproto_deadlock_free`. *)
+Check binproto_deadlock_free.
+
+(* C01 (stage S1): every complete execution of the list-bin protocol is linearizable, for every
+   hash function, table size, program, schedule and key; the final abstract state is what a
+   lookup finds in the final shared memory. *)
+Theorem binproto_linearizable : forall khash nbins progs sched k,
+  (0 < nbins)%nat ->
+  let c := run khash nbins (init nbins progs) sched in
+  all_done c = true ->
+  linearizable None (key_history c k) (Some (lookup khash nbins c k)).
+Proof. intros khash nbins progs sched k Hn. apply binproto_linearizable_k. exact Hn. Qed.
+
+(* The invariant form, for every reachable configuration (strictly stronger): the completed calls
+   together with the pending calls whose result is already decided (threads about to release their
+   lock and respond; counted as responding now) are linearizable, and the resulting abstract state
+   is what a lookup finds in the current shared memory.  Pending calls that are not listed have not
+   taken effect. *)
+Theorem binproto_linearizable_inv : forall khash nbins progs sched k,
+  (0 < nbins)%nat ->
+  let c := run khash nbins (init nbins progs) sched in
+  linearizable None (key_history c k ++ pending_calls k c) (Some (lookup khash nbins c k)).
+Proof. intros khash nbins progs sched k Hn. apply binproto_linearizable_inv_k. exact Hn. Qed.
+
+Lemma binproto_linearizable_from_inv : forall khash nbins progs sched k,
+  (0 < nbins)%nat ->
+  let c := run khash nbins (init nbins progs) sched in
+  all_done c = true ->
+  linearizable None (key_history c k) (Some (lookup khash nbins c k)).
+Proof.
+  intros khash nbins progs sched k Hn c Hd. pose proof (binproto_linearizable_inv khash nbins progs sched k Hn) as H.
+  cbv zeta in H. fold c in H. rewrite (pending_calls_done k c Hd), app_nil_r in H. exact H.
+Qed.
+
+(* (3) the writers-only instance: programs in which every operation takes the bin lock or CASes an
+   empty bin (no get, no try_insert) *)
+Definition writer_op (o : opn) : bool :=
+  match o with OGet _ | OTryInsert _ _ => false | _ => true end.
+Corollary binproto_linearizable_writers : forall khash nbins progs sched k,
+  (0 < nbins)%nat -> forallb (forallb writer_op) progs = true ->
+  let c := run khash nbins (init nbins progs) sched in
+  all_done c = true ->
+  linearizable None (key_history c k) (Some (lookup khash nbins c k)).
+Proof. intros khash nbins progs sched k Hn _. apply binproto_linearizable. exact Hn. Qed.
+
+(* C08: compute_if_present is atomic *)
+Theorem compute_atomic : forall khash nbins progs sched k,
+  (0 < nbins)%nat ->
+  let c := run khash nbins (init nbins progs) sched in
+  all_done c = true ->
+  exists order, Permutation order (key_history c k) /\ respects_rt order /\
+    legal None order = Some (lookup khash nbins c k) /\
+    forall h f seen ret, In h (hist c) -> h_op h = OCompute k f -> h_res h = RComputed (Some seen) ret ->
+      ret = f seen /\
+      exists pre post, let x := C_ (h_inv h) (h_resp h) (KCompute f (Some seen) ret) in
+        order = pre ++ x :: post /\ legal None pre = Some (Some seen) /\ legal None (pre ++ [x]) = Some (f seen).
+Proof. intros khash nbins progs sched k Hn. apply compute_atomic_k. exact Hn. Qed.
+
+(* a step that changes the abstract value of key k belongs to an operation on key k *)
+Theorem no_cross_key : forall khash nbins progs sched k t,
+  (0 < nbins)%nat ->
+  let c := run khash nbins (init nbins progs) sched in
+  lookup khash nbins (step khash nbins c t) k <> lookup khash nbins c k ->
+  exists o, cur (get_thr c t) = Some o /\ op_key o = k.
+Proof. intros khash nbins progs sched k t Hn. apply no_cross_key_k. exact Hn. Qed.
+
+(* ---------- non-vacuity: three threads, overlapping operations on key 5 ---------- *)
+Definition ex_progs : list (list opn) :=
+  [ [OInsert 5 10; OCompute 5 (fun v => Some (v + 1)%Z); OInsert 7 1%Z];
+    [OGet 5; ORemove 5; OGet 5];
+    [OTryInsert 5 7; OGet 5; OCompute 5 (fun v => None)] ].
+Definition ex_sched : list nat :=
+  [0;1;2;0;0;1;2;2;1] ++ concat (repeat [0;1;1;2;0;2;1] 30).
+Definition ex_cfg : cfg := run (fun x => x) 2 (init 2 ex_progs) ex_sched.
+
+Example ex_done : all_done ex_cfg = true.
+Proof. vm_compute. reflexivity. Qed.
+(* invocation/response instants of the eight calls on key 5, newest first: several overlap *)
+Example ex_intervals :
+  map (fun c => (c_inv c, c_res c)) (key_history ex_cfg 5) =
+  [(10, 30); (26, 28); (20, 24); (11, 23); (13, 19); (2, 9); (3, 8); (1, 5)]%N.
+Proof. vm_compute. reflexivity. Qed.
+Example ex_lin_b : lin_b None (key_history ex_cfg 5) (Some (lookup (fun x => x) 2 ex_cfg 5)) = true.
+Proof. vm_compute. reflexivity. Qed.
+Example ex_linearizable : linearizable None (key_history ex_cfg 5) (Some (lookup (fun x => x) 2 ex_cfg 5)).
+Proof. apply lin_b_sound. exact ex_lin_b. Qed.
+(* the theorem applies to it *)
+Example ex_by_theorem : linearizable None (key_history ex_cfg 5) (Some (lookup (fun x => x) 2 ex_cfg 5)).
+Proof. apply (binproto_linearizable (fun x => x) 2 ex_progs ex_sched 5); [lia|exact ex_done]. Qed.
+
 Print Assumptions binproto_inv.
 Print Assumptions binproto_deadlock_free.
+Print Assumptions binproto_linearizable.
+Print Assumptions binproto_linearizable_inv.
+Print Assumptions binproto_linearizable_writers.
+Print Assumptions compute_atomic.
+Print Assumptions no_cross_key.
+Print Assumptions ex_linearizable.
